@@ -944,7 +944,7 @@ func cleanup(d string) {
 
 const rule = "seeded sequences of 3-12 blocks (1-200 account mutations each: creates, nonce bumps, storage writes/overwrites/deletes with 1-40 byte keys incl. prefix-related keys and 1-200 byte values, " +
 	"code deploys 1 B-24 KB shared between accounts, self-destructs, balance set/add/sub through the bound token contract, storage made equal to another account's / to an older root's, snapshot+revert, forks from older roots, " +
-	"orphan AccountDB commits, injected Batch.Write errors with retry/abandon; >= 1 block per sequence writes 300-700 KB so its commit spans several 100 KB batches) executed through the real AccountDB/NodeDatabase over a recording db.Database; " +
+	"orphan AccountDB commits, injected Batch.Write errors with retry (fresh state / same state object) or abandon, contract code equal to the encoded root node of a storage trie of the same block; >= 1 block per sequence writes 300-700 KB so its commit spans several 100 KB batches) executed through the real AccountDB/NodeDatabase over a recording db.Database; " +
 	"every prefix of every commit's physical write units is a crash point (exhaustive over the recorded sequence). Non-trivial: crash points of commits with >= 2 physical units, distinct by (variant, sequence, commit, prefix length)"
 
 func finish(r *mon.Run) {
@@ -961,7 +961,8 @@ func finish(r *mon.Run) {
 			"the reference state is plain maps advanced by the generator; a root on which warm and cold reads agree but differ from the reference is reported inconclusive, not as a durability violation",
 		},
 		MustObserve: []string{"sequences", "commits_reported_ok", "physical_units", "crash_points", "multi_batch_commits", "roots_walked_real", "roots_walked_indep",
-			"storage_tries_walked", "code_blobs_checked", "durability_checks", "accessor_reads", "leaves_iterated", "state_iterator_entries"},
+			"storage_tries_walked", "code_blobs_checked", "durability_checks", "accessor_reads", "leaves_iterated", "state_iterator_entries",
+			"injected_write_errors", "retried_commits_same_state_object", "fork_blocks", "orphan_account_commits", "ldb_kill_runs", "ldb_roots_present_after_restart"},
 	})
 }
 
@@ -1034,6 +1035,12 @@ func main() {
 		w := Witness{Variant: "bound", Seq: i}
 		r.Guard("C03:sequence", w, func() { runSequence(r, "bound", i, nil, nil) })
 	})
+	// hostile shape: code bytes equal to a trie node of the same block
+	nCollide := r.Pick(3, 12)
+	mon.Parallel(nCollide, workers, func(i int) {
+		w := Witness{Variant: "collide", Seq: i}
+		r.Guard("C03:sequence", w, func() { runSequence(r, "collide", i, nil, nil) })
+	})
 	r.Note("phase bound sequences: %.1fs", time.Since(t0).Seconds())
 	res := <-done
 	r.Absorb(res, "C03:unbound")
@@ -1046,6 +1053,7 @@ func main() {
 	r.Sample(Witness{Variant: "bound", Seq: 0})
 	r.Sample(Witness{Variant: "bound", Seq: nBound - 1})
 	r.Sample(Witness{Variant: "unbound", Seq: 0})
+	r.Sample(Witness{Variant: "collide", Seq: 0, Detail: "contract code = encoded root node of a storage trie written in the same block"})
 	r.Sample(map[string]interface{}{"what": "largest commit", "physical_units": r.Get("max_units_in_commit"), "largest_unit_bytes": r.Get("max_unit_bytes"), "ideal_batch_size": db.IdealBatchSize})
 	cleanup(d)
 	mon.CleanWork()
